@@ -1067,8 +1067,14 @@ func (e *Engine) actualParamName(fn *ssa.Function, name string) string {
 		return name
 	}
 	ct := e.C.Funcs[e.P.FuncKey(fn)]
-	if ct == nil || len(ct.ParamNames) == 0 {
+	if ct == nil || len(ct.ParamNames) == 0 && len(ct.LocalNames) == 0 {
+		ct = e.C.Names[e.P.FuncKey(fn)]
+	}
+	if ct == nil || len(ct.ParamNames) == 0 && len(ct.LocalNames) == 0 {
 		return name
+	}
+	if alias := e.actualLocalName(fn, ct, name); alias != "" {
+		return alias
 	}
 	base, suffix := name, ""
 	for i, pn := range ct.ParamNames {
@@ -1101,3 +1107,62 @@ func (e *Engine) actualParamName(fn *ssa.Function, name string) string {
 	}
 	return name
 }
+
+// NamedLocals: the named locals of fn (parameters excluded) in SSA declaration order.
+func NamedLocals(fn *ssa.Function) []string {
+	params := map[string]bool{}
+	for _, p := range fn.Params {
+		params[p.Name()] = true
+	}
+	var out []string
+	for _, b := range fn.Blocks {
+		for _, in := range b.Instrs {
+			if al, ok := in.(*ssa.Alloc); ok && al.Comment != "" && !params[al.Comment] && !syntheticAllocComment[al.Comment] {
+				out = append(out, al.Comment)
+			}
+		}
+	}
+	return out
+}
+
+// actualLocalName: name was a local when the contract was written (it is in ct.LocalNames) and no longer
+// exists; if the function still has the same number of named locals and the one at the same position is
+// new, that is the renamed local. "" if this does not apply.
+func (e *Engine) actualLocalName(fn *ssa.Function, ct *Contract, name string) string {
+	if len(ct.LocalNames) == 0 {
+		return ""
+	}
+	now := NamedLocals(fn)
+	if len(now) != len(ct.LocalNames) {
+		return ""
+	}
+	was := map[string]bool{}
+	for _, n := range ct.LocalNames {
+		was[n] = true
+	}
+	for _, n := range now {
+		if n == name {
+			return "" // still exists
+		}
+	}
+	for _, p := range fn.Params {
+		if p.Name() == name {
+			return ""
+		}
+	}
+	for i, n := range ct.LocalNames {
+		if n == name && !was[now[i]] {
+			// every occurrence of the old name must map to the same new name
+			for j, m := range ct.LocalNames {
+				if m == name && now[j] != now[i] {
+					return ""
+				}
+			}
+			return now[i]
+		}
+	}
+	return ""
+}
+
+// comments go/ssa gives to allocations that are not named source variables
+var syntheticAllocComment = map[string]bool{"defer$stack": true, "complit": true, "new": true, "varargs": true, "makeslice": true, "slicelit": true, "stringiter": true, "rangeiter": true}
